@@ -662,8 +662,9 @@ func cpuGenHalt(c *ctx, x *cpuRun) {
 					}
 					for _, idle := range idles {
 						rs := randRegs(r)
-						if r.chance(6) {
-							// the wake-up dispatch pushes onto IE / IF
+						if ime == 1 && r.chance(6) {
+							// the wake-up dispatch pushes onto IE / IF (only with IME set: without a dispatch the follower
+							// itself would run with its stack in I/O space, which this mode's bus model does not cover)
 							rs.sp = []uint16{0x0000, 0x0001, 0x0002, 0xff0f, 0xff10, 0xff11}[r.intn(6)]
 						}
 						// bytes the follower does not consume are executed (and with the halt bug the second byte
